@@ -51,7 +51,7 @@ theorem no_cross_epoch_delivery (s : State) (h : Reachable s) :
 /-- Stale requests are dropped without any effect. -/
 theorem stale_dropped (s : State) (c : SCall) (t : Sess) (epoch : Nat) (m : Msg) (v : Bool) (g : Nat)
     (hc : getSCall s c.id = some c) (ht : getSess s c.sess = some t)
-    (hadm : admit v g c.src = true) (hstale : epoch < t.seqno) :
+    (hadm : admitOk v g c.src = true) (hstale : epoch < t.seqno) :
     sSend s c.id epoch m v g = s := by
   have h1 : ¬ t.seqno < epoch := by omega
   have h2 : t.seqno ≠ epoch := by omega
